@@ -10,8 +10,36 @@ from .model import Ref
 ADD_OPS = ('add', 'add_from', 'path', 'star', 'cycle', 'tpath')
 
 
-def elements(op, nodes):
+HUGE = 10 ** 4400        # beyond the interpreter's int -> str conversion limit (4300 digits)
+
+
+def tshift(case):
+    """Cases may carry 'tshift': every timestamp of the history is moved by +-10**4400 when it is played (the
+    case file keeps the small numbers; such ints cannot even be printed)."""
+    s = case.get('tshift')
+    return 0 if not s else (HUGE if s == 'p4400' else -HUGE)
+
+
+def shifted(op, s):
+    """op with every time field moved by s."""
+    if not s:
+        return op
+    k = op[0]
+    mv = lambda x: None if x is None else x + s
+    if k == 'add':
+        return [k, op[1], op[2], mv(op[3]), mv(op[4])]
+    if k == 'add_from':
+        return [k, op[1], mv(op[2]), mv(op[3])]
+    if k in ('path', 'star', 'cycle'):
+        return [k, op[1], mv(op[2]), op[3], mv(op[4])]
+    if k == 'tpath':
+        return [k, op[1], mv(op[2])]
+    return op
+
+
+def elements(op, nodes, shift=0):
     """The sequence of add_interaction(u, v, t, e) calls an op boils down to."""
+    op = shifted(op, shift)
     k = op[0]
     if k == 'add':
         return [(nodes[op[1]], nodes[op[2]], op[3], op[4])]
@@ -48,7 +76,7 @@ def predicted(model, u, v, t, e):
     return 'ValueError' if (lr is not None and t < lr[0]) else 'ok'
 
 
-def apply_model(model, nodes, op, on_element=None):
+def apply_model(model, nodes, op, on_element=None, shift=0):
     """Apply op to the model using predicted outcomes.  Returns (outcome, n_applied, new_instants)
     where new_instants is a list of (key, set) per applied element."""
     k = op[0]
@@ -63,7 +91,7 @@ def apply_model(model, nodes, op, on_element=None):
         return 'NetworkXError', 0, []
     applied = 0
     news = []
-    for (u, v, t, e) in elements(op, nodes):
+    for (u, v, t, e) in elements(op, nodes, shift):
         out = predicted(model, u, v, t, e)
         if on_element is not None:
             on_element(u, v, t, e, out)
@@ -85,13 +113,14 @@ def _variant(op, n):
     return sum(ord(c) for c in repr(op)) % n
 
 
-def call_real(G, nodes, op):
+def call_real(G, nodes, op, shift=0):
     """Perform op on the real graph; returns None or the exception instance.  The documented call
     forms are rotated (positional / keyword t and e; ebunch as list of tuples, tuple of lists,
     generator, 3-tuples with a data dict; node sequences as list, tuple or iterator)."""
     import dynetx as dn
     k = op[0]
     var = _variant(op, 12)
+    op = shifted(op, shift)
     try:
         if k == 'add':
             u, v, t, e = nodes[op[1]], nodes[op[2]], op[3], op[4]
@@ -180,6 +209,7 @@ class Driver:
         self.removal = case.get('removal', True)
         self.G = new_graph(case['cls'], self.removal)
         self.M = Ref(self.directed, self.removal)
+        self.shift = tshift(case)
         self.desync = False      # accumulative mode: prediction and library disagreed
         self.classes = set()
 
@@ -236,10 +266,10 @@ class Driver:
         if not self.removal and op[0] == 'add':
             # accumulative mode: the statement fixes no acceptance rule for an existing pair, so a
             # single call is followed whichever way the library answers (ok / ValueError).
-            u, v, t, e = elements(op, nodes)[0]
+            u, v, t, e = elements(op, nodes, self.shift)[0]
             expected = predicted(self.M, u, v, t, e)
             self.classify(u, v, t, e, expected)
-            ex = call_real(self.G, self.anodes, op)
+            ex = call_real(self.G, self.anodes, op, self.shift)
             actual = exc_kind(ex)
             applied, news = 0, []
             if actual in ('ok', 'ValueError') and self.M.expected_outcome(u, v, t, e) == 'either':
@@ -249,8 +279,8 @@ class Driver:
                 news.append((self.M.key(u, v), self.M.apply_add(u, v, t, e)))
                 applied = 1
         else:
-            expected, applied, news = apply_model(self.M, nodes, op, self.classify)
-            ex = call_real(self.G, self.anodes, op)
+            expected, applied, news = apply_model(self.M, nodes, op, self.classify, self.shift)
+            ex = call_real(self.G, self.anodes, op, self.shift)
             actual = exc_kind(ex)
             if not self.removal and op[0] in ADD_OPS and actual != expected:
                 self.desync = True
